@@ -206,6 +206,14 @@ def sizeStableRun (c : Cfg) (d : DST) : List Op → St → Bool
       | _ => true
     ok && sizeStableRun c d ops (stepOp c d op s)
 
+/-- evaluates the position invariant `PosOK` (Proofs/RecordBounds.lean: packet size = buffer size in bits, `at` inside
+    the packet) after every operation of a run; `tracing_call_writes_inside_the_packet` (Props/C02) assumes it -/
+def posOKRun (c : Cfg) (d : DST) : List Op → St → Bool
+  | [], _ => true
+  | op :: ops, s =>
+    let s' := stepOp c d op s
+    (s'.halted || (s'.c.packetSize == 8 * s'.buf.length && decide (s'.c.at_ ≤ s'.c.packetSize))) && posOKRun c d ops s'
+
 def runHist (c : Cfg) (j : Json) : String :=
   match findDst c (getStr j "dst") with
   | none => "bad-dst"
@@ -214,7 +222,8 @@ def runHist (c : Cfg) (j : Json) : String :=
     let ops := (getArr j "calls").map opOf
     let s := runOps c d ops s0
     let lines := s.log.reverse.filterMap (showEv (getBool j "stores"))
-    let lines := if getBool j "hyps" then lines ++ ["hyp SizeStable=" ++ b01 (sizeStableRun c d ops s0)] else lines
+    let lines := if getBool j "hyps" then lines ++ ["hyp PosOK=" ++ b01 (posOKRun c d ops s0),
+      "hyp SizeStable=" ++ b01 (sizeStableRun c d ops s0)] else lines
     (Json.arr (lines.map Json.str).toArray).compress
 
 /-! ### layout / API ops -/
